@@ -693,7 +693,10 @@ def run(ctx):
                        "lengths of the hand-written 1/2/3-element cases and first merges, seeded lengths up to 2000; keys drawn with heavy "
                        "duplication in sorted/reversed/organ-pipe/constant/sawtooth/nearly-sorted orders; elements tagged with their position "
                        "(pairs, depth-limited vectors) or distinguishable equal numbers (exact/inexact/ratio/bignum); a case is non-trivial "
-                       "when it has >= 2 elements and distinct by (procedure, ordering, container, elements)")
+                       "when it has >= 2 elements and distinct by (procedure, ordering, container, elements); merges: all size pairs 0-6 x 0-6 "
+                       "plus seeded sizes with ties forced across the two inputs; containers: seeded operation histories (3-200 ops, one "
+                       "evaluation per operation) per library over earlier versions (70% recent, 30% any older), every answer compared with the "
+                       "extracted abstract model and all versions re-dumped at the end; a history is distinct by its text")
     ctx.coq_obligations("Properties_C18")
     d = ctx.build("default")
     exe = ctx.extract("C18")
@@ -706,3 +709,7 @@ def run(ctx):
     check_histories(ctx, d, exe, corpus_hist)
     ctx.assume("less/key procedures that raise, capture continuations or mutate the sequence are outside the model")
     ctx.assume("inconsistent orderings (NaN, non-transitive less) are outside the property's premise and are not generated")
+    ctx.assume("the container implementations (SRFI 113/146/101/117/134, (chibi iset), SRFI 1/133 subset) are not modelled: the Coq artefact for them is an "
+               "abstract model with proved laws, compared differentially; operations that 'are an error' per the SRFI (empty deque front, index out of range) are not generated")
+    ctx.assume("sexp_object_compare (the built-in ordering) is exercised on numbers, depth-limited vectors and lists of integers but not modelled")
+    ctx.trust("harness/c18_hist.scm and the history interpreter in ocaml/C18_driver.ml (one spec call per operation, same index guards on both sides)")
